@@ -284,6 +284,7 @@ def stepCreate (s : State) (id : Id) (sender to : Addr) (coins : Coins) (lock : 
     (ts timeLock : Nat) (transfer : Bool) : R :=
   if !vbCreate coins lock timeLock transfer then .error (.reject "validate basic") else
   if blocked to then .error (.reject "recipient is a module account") else
+  if to = escrow then .error (.reject "recipient is the htlc module account") else
   if AMap.contains s.htlcs id then .error (.reject "htlc exists") else
   if transfer then createHTLT s id sender to coins lock ts timeLock
   else createPlain s id sender to coins lock ts timeLock
